@@ -4,6 +4,8 @@ jmodel: the Lean side of the correspondence check. Reads one op per line on stdi
 Core-only: imports Model, Spec and Driver glue, never a proof module.
 -/
 import Jsonapi.Driver.Schema
+import Jsonapi.Driver.Filter
+import Jsonapi.Driver.Range
 open Jsonapi Jsonapi.Driver
 
 structure DState where
@@ -14,6 +16,12 @@ def stepLine (st : DState) (line : String) : DState × String :=
   | [.list (.atom "schema" :: args)] =>
     let (s', m, sp, dom) := stepSchema st.schema args
     ({ st with schema := s' }, m ++ "\t" ++ sp ++ "\t" ++ (if dom then "1" else "0"))
+  | [.list (.atom "filter" :: args)] =>
+    let (m, sp, dom) := stepFilter args
+    (st, m ++ "\t" ++ sp ++ "\t" ++ (if dom then "1" else "0"))
+  | [.list (.atom "range" :: args)] =>
+    let (m, sp, dom) := stepRange args
+    (st, m ++ "\t" ++ sp ++ "\t" ++ (if dom then "1" else "0"))
   | _ => (st, "bad-line\t-\t0")
 
 partial def loop (h : IO.FS.Stream) (out : IO.FS.Stream) (st : DState) : IO Unit := do
